@@ -153,7 +153,8 @@ Theorem C05_source_va_read : forall rf rp fo po k sx m h, Forall byte sx -> (for
     (k < 0 -> match Va.va_read false None sx with
               | Ok (_, sM) => st = SBDF_OK /\ Imp.lookup strm_var (vars fin) = Some (VBytes sM)
               | Err e => st = e end) /\
-    ((st = SBDF_OK /\ Imp.lookup "*handle" (vars fin) = Some (VCell (List.length h) 0) /\ exists blk newb, Imp.lookup cells_var (vars fin) = Some (VHeap (h ++ Some blk :: newb))) \/
+    ((st = SBDF_OK /\ Imp.lookup "*handle" (vars fin) = Some (VCell (List.length h) 0) /\
+        exists blk newb, Imp.lookup cells_var (vars fin) = Some (VHeap (h ++ Some blk :: newb)) /\ va_rel (inb fin) (h ++ Some blk :: newb) (List.length h) (h ++ None :: nones (List.length newb))) \/
      (st < 0 /\ Imp.lookup "*handle" (vars fin) = Some VNull /\ exists j, Imp.lookup cells_var (vars fin) = Some (VHeap (h ++ nones j)))).
 Proof. exact va_read_source. Qed.
 Print Assumptions C05_source_va_read.
